@@ -209,53 +209,81 @@ class C05(PropertyCheck):
     # ----------------------------------------------------------------------------------
     def _run_batch(self, ctx, res, batch, tag):
         """batch: list of (specs, N, method, perm, shuffle:bool, repeat:int).  About a third of the cases are run on a
-        Scheduler object shared with the preceding cases of the same setting (a history of up to 6 calls on one object);
-        the model is stateless, so each result must still be what the model answers for that call alone."""
+        Scheduler object shared with the preceding cases of the same setting (a history of up to 8 calls on one object);
+        half of those are followed by a second case that re-schedules the SAME QubitCircuit / gate-list object after it
+        was edited in place (gate replaced / inserted / removed, qubits of a gate object re-assigned).  The model is
+        stateless, so each result must still be what the model answers for the content of the object at that call."""
         rng = ctx.rng
-        lines, impl = [], []
+        lines, impl, cases = [], [], []
         chain = self._chain
-        for specs, N, method, perm, shuffle, repeat in batch:
-            gates = [gate_obj(s) for s in specs]
-            fields = [fields_of(s) + (sc.DEN,) for s in specs]
+
+        def chained(specs, N, method, perm, shuffle, repeat, sch, hist, store, oid, as_circuit, edits):
+            """idx call (+ cycles call) on the persistent object `oid` of the history"""
             log = sc.ShuffleLog(rng) if (shuffle or repeat) else None
-            kw = {"random_shuffle": bool(shuffle)}
-            if repeat:
-                kw["repeat_num"] = repeat
-            as_circuit = rng.random() < 0.15
-            obj = sc.make_circuit(N, specs) if as_circuit else gates
-            sch, hist = chain.get(method, perm, 2) if rng.random() < 0.35 else (None, None)
-            st, idx = sc.impl_schedule(obj, method, perm, log, scheduler=sch, **kw)
+            c1 = {"kind": "gate", "N": N, "gates": specs, "shuf": None, "repeat": repeat, "cycles": False,
+                  "as_circuit": as_circuit, "obj": oid, "edits": edits}
+            st, idx = sc.run_call(sch, c1, method, perm, store=store, log=log)
             shuf = log.log if log else None
-            if hist is not None:
-                hist.append({"kind": "gate", "N": N, "gates": specs, "shuf": shuf, "repeat": repeat, "cycles": False,
-                             "as_circuit": as_circuit})
+            c1["shuf"] = shuf
+            hist.append(c1)
             cyc = None
             if st == "ok" and not repeat:
-                # the cycles list itself, replaying the same shuffles
-                log2 = sc.ShuffleLog(replay=log.log) if log else None
-                st, cyc = sc.impl_schedule(obj, method, perm, log2, scheduler=sch, return_cycles_list=True, **kw)
-                if hist is not None:
-                    hist.append({"kind": "gate", "N": N, "gates": specs, "shuf": shuf, "repeat": 0, "cycles": True,
-                                 "as_circuit": as_circuit})
-            impl.append((st, idx, cyc, shuf, list(hist) if hist is not None else None))
-            if repeat and shuf is not None:
-                lines.append(None)            # several model runs, issued below
+                c2 = dict(c1, cycles=True, edits=[])
+                st, cyc = sc.run_call(sch, c2, method, perm, store=store)
+                hist.append(c2)
+            return st, idx, cyc, shuf, list(hist)
+
+        for specs, N, method, perm, shuffle, repeat in batch:
+            fields = [fields_of(s) + (sc.DEN,) for s in specs]
+            derived = None
+            if specs and rng.random() < 0.35:
+                sch, hist = chain.get(method, perm, 4)
+                store, oid, as_circuit = chain.objects(method, perm), chain.new_id(), rng.random() < 0.4
+                r = chained(specs, N, method, perm, shuffle, repeat, sch, hist, store, oid, as_circuit, [])
+                if r[0] == "ok" and not repeat and rng.random() < 0.5:
+                    if N not in self._pools:
+                        self._pools[N] = sc.placements(N)
+                    edits = sc.random_edits(rng, specs, N, self._pools[N])
+                    specs2 = sc.edited_specs(specs, edits)
+                    if specs2 and any(sc.used_of(x) for x in specs2):
+                        derived = (specs2, chained(specs2, N, method, perm, shuffle, 0, sch, hist, store, oid, as_circuit, edits))
             else:
-                lines.append(sc.model_line(method, perm, fields, shuf))
+                gates = [gate_obj(s) for s in specs]
+                log = sc.ShuffleLog(rng) if (shuffle or repeat) else None
+                kw = {"random_shuffle": bool(shuffle)}
+                if repeat:
+                    kw["repeat_num"] = repeat
+                obj = sc.make_circuit(N, specs) if rng.random() < 0.15 else gates
+                st, idx = sc.impl_schedule(obj, method, perm, log, **kw)
+                shuf = log.log if log else None
+                cyc = None
+                if st == "ok" and not repeat:
+                    log2 = sc.ShuffleLog(replay=log.log) if log else None     # the cycles list itself, same shuffles
+                    st, cyc = sc.impl_schedule(obj, method, perm, log2, return_cycles_list=True, **kw)
+                r = (st, idx, cyc, shuf, None)
+            for sp, rr, rep, edited in ((specs, r, repeat, False),) + (((derived[0], derived[1], 0, True),) if derived else ()):
+                cases.append((sp, N, method, perm, shuffle, rep, edited))
+                impl.append(rr)
+                if rep and rr[3] is not None:
+                    lines.append(None)            # several model runs, issued below
+                else:
+                    lines.append(sc.model_line(method, perm, [fields_of(x) + (sc.DEN,) for x in sp], rr[3]))
         outs = ctx.driver("drv_sched").run([l for l in lines if l is not None])
         it = iter(outs)
-        for (specs, N, method, perm, shuffle, repeat), line, (st, idx, cyc, shuf, hist) in zip(batch, lines, impl):
+        for (specs, N, method, perm, shuffle, repeat, edited), line, (st, idx, cyc, shuf, hist) in zip(cases, lines, impl):
             used = [sc.used_of(s) for s in specs]
             nontriv = any(used[i] & used[j] for i in range(len(specs)) for j in range(i + 1, len(specs)))
             inp = {"gates": [[s[0], s[1], s[2]] for s in specs], "method": method, "perm": perm, "shuf": shuf,
                    "repeat": repeat}
             if hist is not None:
-                inp["calls_before_on_this_scheduler"] = [[[g[0], g[1], g[2]] for g in c["gates"]] + [c["cycles"], c["repeat"]]
-                                                          for c in hist[:-1 if repeat else -2]]
+                inp["calls_before_on_this_scheduler"] = [
+                    [[g[0], g[1], g[2]] for g in c["gates"]] + [c["cycles"], c["repeat"], c["obj"], c["edits"]]
+                    for c in hist[:-1 if repeat else -2]]
             res.case(inp, nontrivial=nontriv,
                      tags=[tag, f"len={len(specs)}", f"method={method}", f"perm={int(perm)}",
                            f"shuffle={int(bool(shuffle or repeat))}",
-                           "history=%d" % (0 if hist is None else min(len(hist), 6))])
+                           "history=%d" % (0 if hist is None else min(len(hist), 8))]
+                     + (["edited-in-place"] if edited else []))
             if hist is None:
                 w = {"N": N, "gates": specs, "method": method, "perm": perm, "shuf": shuf, "repeat": repeat,
                      "scope": "covered"}
@@ -390,9 +418,11 @@ class C05(PropertyCheck):
 
     def correspondence(self, ctx, res):
         rng = ctx.rng
-        self._chain = sc.SchedulerChain()
-        res.notes.append("about a third of the schedule cases are calls on a Scheduler object already used for up to 5 earlier "
-                         "calls of the same setting (tag history=k); the model is stateless")
+        self._chain = sc.SchedulerChain(maxlen=8)
+        self._pools = {}
+        res.notes.append("about a third of the schedule cases are calls on a Scheduler object already used for up to 7 earlier "
+                         "calls of the same setting (tag history=k); half of them are followed by a case that re-schedules the "
+                         "same circuit / list object after in-place edits (tag edited-in-place); the model is stateless")
         missing, extra = sc.library_check()
         if missing or extra:
             res.notes.append(f"gate library differs from the harness table: unknown {missing}, absent {extra}")
@@ -522,8 +552,9 @@ class C05(PropertyCheck):
         method, perm = w["method"], w["perm"]
         sch = Scheduler(method, allow_permutation=perm)
         n = len(w["history"])
+        store = {}
         for k, call in enumerate(w["history"]):
-            st, r = sc.run_call(sch, call, method, perm, gate_of=gate_obj)
+            st, r = sc.run_call(sch, call, method, perm, gate_of=gate_obj, store=store)
             if call["kind"] != "gate":
                 continue
             specs = call["gates"]
@@ -581,16 +612,39 @@ class C05(PropertyCheck):
         def call(seq, cycles=True):
             return {"kind": "gate", "N": 3, "gates": specs_from(seq), "shuf": None, "repeat": 0, "cycles": cycles,
                     "as_circuit": False}
+        def spec(g, k):
+            return [g[0], list(g[1]), list(g[2]), sc.arg_for(g[0], k)]
         if rng is None:
             two = list(itertools.product(pool, repeat=2))
+            # the SAME object scheduled twice, one gate replaced in place in between (list and QubitCircuit)
+            for a in two:
+                for i in (0, 1):
+                    for k, x in enumerate(pool):
+                        ed = [["set", i, spec(x, 3 + k)]]
+                        c1 = dict(call(a), obj=1, edits=[], as_circuit=bool((i + k) % 2))
+                        c2 = dict(c1, gates=sc.edited_specs(c1["gates"], ed), edits=ed)
+                        for m in ("ASAP", "ALAP"):
+                            yield {"history": [c1, c2], "method": m, "perm": True, "scope": "covered"}
             for a in two:
                 for b in two:
                     for m in ("ASAP", "ALAP"):
                         yield {"history": [call(a), call(b)], "method": m, "perm": True, "scope": "covered"}
         else:
+            placed = [(g[0], list(g[1]), list(g[2])) for g in pool]
             for _ in range(count):
-                calls = [call([rng.choice(pool) for _ in range(rng.randint(2, 4))], cycles=rng.random() < 0.7)
-                         for _ in range(rng.randint(2, 3))]
+                if rng.random() < 0.5:          # one persistent object, edited in place between the calls
+                    c = dict(call([rng.choice(pool) for _ in range(rng.randint(2, 4))], cycles=rng.random() < 0.7),
+                             obj=1, edits=[], as_circuit=rng.random() < 0.5)
+                    calls = [c]
+                    for _ in range(rng.randint(1, 2)):
+                        ed = sc.random_edits(rng, c["gates"], 3, placed)
+                        c = dict(c, gates=sc.edited_specs(c["gates"], ed), edits=ed, cycles=rng.random() < 0.7)
+                        if not c["gates"]:
+                            break
+                        calls.append(c)
+                else:
+                    calls = [call([rng.choice(pool) for _ in range(rng.randint(2, 4))], cycles=rng.random() < 0.7)
+                             for _ in range(rng.randint(2, 3))]
                 yield {"history": calls, "method": rng.choice(["ASAP", "ALAP"]), "perm": True, "scope": "covered"}
 
     def _interleaved(self, full=False):
@@ -681,7 +735,7 @@ class C05(PropertyCheck):
             if f:
                 yield w, d
         # histories: one Scheduler object used for several circuits
-        for w in self._history_witnesses(ctx.rng, 300):
+        for w in self._history_witnesses(ctx.rng, 400):
             f, d = self.oracle_replay(ctx, w)
             if f:
                 yield w, d
